@@ -31,7 +31,7 @@ package controller
 //@   ensures[last] f.lastSetPwm != nil && *f.lastSetPwm == target
 //@   ensures[C12.others C01 C05] forall o int :: o != ref(f.fan) ==> pwmWrites[o] == old(pwmWrites)[o] && lastPwm[o] == old(lastPwm)[o]
 //@   ensures[C12.once C01 C05] pwmWrites[f.fan] == old(pwmWrites)[f.fan] || (pwmWrites[f.fan] == old(pwmWrites)[f.fan] + 1 && exists s :: nearestIn(distinct(f), s, target) && lastPwm[f.fan] == f.pwmMap[s])
-//@   modifies f.lastSetPwm, pwmWrites, lastPwm, fileInt, procWorld, started, lastReadFailed, supportsResult, f.fan.(*fans.HwMonFan).Pwm, f.fan.(*fans.FileFan).Pwm, f.fan.(*fans.CmdFan).Pwm
+//@   modifies f.lastSetPwm, pwmWrites, lastPwm, lastPwmErr, fileInt, procWorld, started, lastReadFailed, supportsResult, f.fan.(*fans.HwMonFan).Pwm, f.fan.(*fans.FileFan).Pwm, f.fan.(*fans.CmdFan).Pwm
 
 //@ func (*DefaultFanController).updateDistinctPwmValues
 //@   props C12
@@ -68,9 +68,9 @@ package controller
 //@   safety C09
 //@   requires ctrlInv(f)
 //@   atcall[rescaled] ensureNoThirdPartyIsMessingWithUs: minPwm <= target && target <= maxPwm && maxPwm == fans.fanMax(f.fan) && minPwm == floorOf(f)
-//@   ensures[C01.range C02 C05 C10] err == nil ==> old(fans.fanMin(f.fan)) <= target && target <= old(fans.fanMax(f.fan))
-//@   ensures[C01.inv C02 C05 C10]   ctrlInv(f)
-//@   ensures[C01.maxconst C02 C05 C10] fans.fanMax(f.fan) == old(fans.fanMax(f.fan)) && f.pwmMap == old(f.pwmMap) && f.lastSetPwm == old(f.lastSetPwm)
+//@   ensures[C01.range C02 C05 C10 C03 C09] err == nil ==> old(fans.fanMin(f.fan)) <= target && target <= old(fans.fanMax(f.fan))
+//@   ensures[C01.inv C02 C05 C10 C03 C09]   ctrlInv(f)
+//@   ensures[C01.maxconst C02 C05 C10 C03 C09] fans.fanMax(f.fan) == old(fans.fanMax(f.fan)) && f.pwmMap == old(f.pwmMap) && f.lastSetPwm == old(f.lastSetPwm)
 //@   ensures[C02.floor]  err == nil && fans.fanNeverStop(f.fan) ==> target >= old(floorOf(f))
 //@   ensures[C02.perm]   floorOf(f) >= old(floorOf(f))
 //@   ensures[C10.detect] err == nil && supportsResult[fans.FeatureRpmSensor] && fans.fanNeverStop(f.fan) && old(f.lastSetPwm) != nil && old(fans.rpmAvg(f.fan)) <= 0.0 && f.minPwmOffset == old(f.minPwmOffset) ==> target != old(*f.lastSetPwm)
@@ -92,7 +92,7 @@ package controller
 //@   modifies modeWrites, lastMode, fileInt, lastReadFailed, supportsResult
 
 //@ func (*DefaultFanController).UpdateFanSpeed
-//@   props C01 C02 C05 C10
+//@   props C01 C02 C05 C10 C09
 //@   split f.fan
 //@   safety C09
 //@   requires ctrlInv(f) && mapInv(f)
@@ -101,8 +101,8 @@ package controller
 //@   ensures[C01.byte]  (forall k :: k in f.pwmMap ==> 0 <= f.pwmMap[k] && f.pwmMap[k] <= 255) && pwmWrites[f.fan] != old(pwmWrites)[f.fan] ==> 0 <= lastPwm[f.fan] && lastPwm[f.fan] <= 255
 //@   ensures[C01.others] forall o int :: o != ref(f.fan) ==> pwmWrites[o] == old(pwmWrites)[o]
 //@   ensures[C10.stop]  result != nil ==> pwmWrites == old(pwmWrites) && f.lastSetPwm == old(f.lastSetPwm)
-//@   ensures[C01.inv C02 C05 C10] ctrlInv(f) && mapInv(f)
-//@   modifies f.lastSetPwm, pwmWrites, lastPwm, modeWrites, lastMode, fileInt
+//@   ensures[C01.inv C02 C05 C10 C03 C09] ctrlInv(f) && mapInv(f)
+//@   modifies f.lastSetPwm, pwmWrites, lastPwm, lastPwmErr, modeWrites, lastMode, fileInt
 //@   modifies f.minPwmOffset, f.stats.MinPwmOffset, f.stats.IncreasedMinPwmCount, f.stats.UnexpectedPwmValueCount
 //@   modifies f.fan.(*fans.HwMonFan).RpmMovingAvg, f.fan.(*fans.HwMonFan).Pwm
 //@   modifies f.fan.(*fans.FileFan).Rpm, f.fan.(*fans.FileFan).Pwm, f.fan.(*fans.CmdFan).Rpm, f.fan.(*fans.CmdFan).Pwm
@@ -112,7 +112,7 @@ package controller
 
 // ---- RPM monitor step and stall handling (C10) ---------------------------------------------------------
 //@ func (*DefaultFanController).measureRpm
-//@   props C10
+//@   props C10 C09
 //@   split fan
 //@   requires fans.fanWF(fan) && same(f.fan, fan) && configuration.CurrentConfig.RpmRollingWindowSize >= 1 && configuration.CurrentConfig.RpmRollingWindowSize <= 1000000000
 //@   requires fin(fans.rpmAvg(fan)) && abs(real(fans.rpmAvg(fan))) <= 1.0e15
@@ -121,3 +121,37 @@ package controller
 //@   ensures[C10.floorframe C02] floorOf(f) == old(floorOf(f)) && f.lastSetPwm == old(f.lastSetPwm) && pwmWrites == old(pwmWrites)
 //@   modifies f.fan.(*fans.HwMonFan).RpmMovingAvg, f.fan.(*fans.HwMonFan).Pwm, f.fan.(*fans.HwMonFan).Rpm, f.fan.(*fans.HwMonFan).FanCurveData, (*f.fan.(*fans.HwMonFan).FanCurveData)[_]
 //@   modifies f.fan.(*fans.FileFan).Rpm, f.fan.(*fans.FileFan).Pwm, f.fan.(*fans.CmdFan).Rpm, f.fan.(*fans.CmdFan).Pwm, procWorld, started, lastReadFailed, supportsResult, lastRpmRead
+
+// ---- stopping regulation (C03, C09) -----------------------------------------------------------------------
+//@ ghost var restored gset[int]
+//@ pure modeRestored(f *DefaultFanController) bool = f.fan is *fans.HwMonFan && f.originalPwmEnabled != fans.ControlModePWM && supportsResult[fans.FeatureControlMode] && (fileInt[fans.hwEnablePath(f.fan.(*fans.HwMonFan))] == f.originalPwmEnabled || lastReadFailed)
+
+//@ func (*DefaultFanController).restorePwmEnabled
+//@   props C03 C09
+//@   split f.fan
+//@   requires fans.fanWF(f.fan)
+//@   ghostdo restored[f] := true
+//@   ensures restored == old(restored)[f := true]
+//@   ensures[C03.final] modeRestored(f) || (lastPwm[f.fan] == 255 && pwmWrites[f.fan] > old(pwmWrites)[f.fan])
+//@   ensures[C03.fullspeed] !modeRestored(f) && !lastPwmErr[f.fan] && f.fan is *fans.HwMonFan && fans.hwPwmPath(f.fan.(*fans.HwMonFan)) in faithful ==> fileInt[fans.hwPwmPath(f.fan.(*fans.HwMonFan))] == 255
+//@   modifies restored, pwmWrites, lastPwm, lastPwmErr, modeWrites, lastMode, fileInt, procWorld, started, lastReadFailed, supportsResult
+
+//@ func (*DefaultFanController).Run$1
+//@   props C09
+//@   requires *f != nil && fans.fanWF(*fan) && same((*f).fan, *fan) && *ctx != nil
+//@   requires configuration.CurrentConfig.RpmRollingWindowSize >= 1 && configuration.CurrentConfig.RpmRollingWindowSize <= 1000000000 && fin(fans.rpmAvg(*fan)) && abs(real(fans.rpmAvg(*fan))) <= 1.0e15
+//@   modifies anything
+//@   loop 1 ""
+//@     invariant *f != nil && fans.fanWF(*fan) && same((*f).fan, *fan) && *ctx != nil && tick != nil
+//@     invariant fin(fans.rpmAvg(*fan)) && abs(real(fans.rpmAvg(*fan))) <= 1.0e15
+
+//@ func (*DefaultFanController).Run$3
+//@   props C03 C09
+//@   requires *f != nil && ctrlInv(*f) && mapInv(*f) && same((*f).fan, *fan) && *ctx != nil
+//@   ensures[C03.restored] *f in restored
+//@   modifies anything
+//@   loop 1 ""
+//@     invariant *f != nil && *f == old(*f) && *ctx != nil && tick != nil
+//@     invariant same((*f).fan, *fan)
+//@     invariant ctrlInv(*f)
+//@     invariant mapInv(*f)
